@@ -366,6 +366,7 @@ func (p *protocolV2) messagePump(client *clientV2, startedChan chan bool) {
 		}
 		if msg != nil {
 			if sampleRate > 0 && rand.Int31n(100) > sampleRate {
+				verifPoint("proto.pump.sampleDrop")
 				continue
 			}
 			verifPoint("proto.pump.afterRecv")
